@@ -37,6 +37,41 @@ WantAfterWrite(lines) == IF lines = <<>> THEN << <<>> >> ELSE lines
 Kept(lines) == SplitLines(WriteText(lines)) = WantAfterWrite(lines)
 KeptIter(lines) == SplitLines(WriteIterText(lines)) = lines
 
+(* ------------------------------------------------------------------ the objects as a state machine *)
+(* st = [obj  : slot -> [live, lines]      the TextFile objects
+         disk : file -> [exists, text]     the files
+         want : file -> lines              ghost: what a reader has to find in the file]
+   c  = <<name, arguments...>> one public call:
+     <<"new", s>>            s = cls()
+     <<"set", s, L>>         a format's setter fills s.lines with the list L
+     <<"append", s, l>>      s.lines is edited in place
+     <<"write", s, d, how>>  s.write(path of d | open handle on d)
+     <<"read", s, d, how>>   s = cls.read(path of d | open handle on d)
+     <<"copy", s, t>>        t = s.copy()
+     <<"str", s>>            str(s)
+     <<"writeiter", d, L>>   TextFile.write_iter(d, L)
+     <<"readiter", d>>       list(TextFile.read_iter(d))
+   TFApply gives en (the call is in the model's domain: its object / file exists), the state after
+   the call and the value returned. *)
+TFRet(k, v) == [k |-> k, v |-> v]
+TFNone == TFRet("none", <<>>)
+TFObj(lines) == [live |-> TRUE, lines |-> lines]
+TFStay(st, en, ret) == [en |-> en, obj |-> st.obj, disk |-> st.disk, want |-> st.want, ret |-> ret]
+TFSetObj(st, en, s, lines) == [en |-> en, obj |-> [st.obj EXCEPT ![s] = TFObj(lines)], disk |-> st.disk, want |-> st.want, ret |-> TFNone]
+TFSetDisk(st, en, d, text, w) ==
+  [en |-> en, obj |-> st.obj, disk |-> [st.disk EXCEPT ![d] = [exists |-> TRUE, text |-> text]],
+   want |-> [st.want EXCEPT ![d] = w], ret |-> TFNone]
+TFApply(st, c) ==
+  CASE c[1] = "new" -> TFSetObj(st, TRUE, c[2], <<>>)
+    [] c[1] = "set" -> TFSetObj(st, st.obj[c[2]].live, c[2], c[3])
+    [] c[1] = "append" -> TFSetObj(st, st.obj[c[2]].live, c[2], Append(st.obj[c[2]].lines, c[3]))
+    [] c[1] = "write" -> TFSetDisk(st, st.obj[c[2]].live, c[3], WriteText(st.obj[c[2]].lines), WantAfterWrite(st.obj[c[2]].lines))
+    [] c[1] = "read" -> TFSetObj(st, st.disk[c[3]].exists, c[2], SplitLines(st.disk[c[3]].text))
+    [] c[1] = "copy" -> TFSetObj(st, st.obj[c[2]].live /\ c[2] # c[3], c[3], st.obj[c[2]].lines)
+    [] c[1] = "str" -> TFStay(st, st.obj[c[2]].live, TFRet("text", StrText(st.obj[c[2]].lines)))
+    [] c[1] = "writeiter" -> TFSetDisk(st, TRUE, c[2], WriteIterText(c[3]), c[3])
+    [] c[1] = "readiter" -> TFStay(st, st.disk[c[2]].exists, TFRet("items", ReadIterItems(st.disk[c[2]].text)))
+
 ASSUME SplitLines(<<"a", NL, NL, "b">>) = <<T("a"), <<>>, T("b")>> /\ SplitLines(<<NL>>) = << <<>> >> /\ SplitLines(<<>>) = <<>>
 ASSUME WriteText(<<T("a"), <<>>, T(" b ")>>) = <<"a", NL, NL, " ", "b", " ", NL>> /\ WriteText(<<>>) = <<NL>>
 ASSUME ReadIterItems(<<"a", NL, NL, "b">>) = << <<"a", NL>>, <<NL>>, T("b") >>
